@@ -1,15 +1,66 @@
+//! simctl - deterministic simulation with fault injection for mpolosak/SimpleSL.
+mod boot;
+mod canon;
+mod corpus;
+mod driver;
+mod hashsim;
 mod keys;
 mod prng;
-use std::collections::HashSet;
+mod proc;
+mod run;
+mod universe;
+
+use serde_json::Value;
+
+pub fn replay_other(sim: &str, _v: &Value) -> Result<bool, String> {
+    Err(format!("unknown sim {sim}"))
+}
+
+fn usage() -> ! {
+    eprintln!("usage: simctl check <C03|C05|C13|C15|C16|C17|C18> <quick|thorough> | replay <file> | worker <sim> | single <sim> | selftest");
+    std::process::exit(2)
+}
+
 fn main() {
-    for seed in [1u64, 2, 1, 3] {
-        let h = std::thread::spawn(move || {
-            keys::set_key_seed(seed);
-            let s: HashSet<&str> = ["a", "b", "c", "d", "e", "f"].into_iter().collect();
-            let v: Vec<_> = s.iter().cloned().collect();
-            (v.join(""), keys::calls_on_this_thread())
-        });
-        println!("{seed}: {:?}", h.join().unwrap());
+    run::install_panic_hook();
+    let args: Vec<String> = std::env::args().collect();
+    if args.len() < 2 {
+        usage();
     }
-    println!("total getrandom calls {}", keys::CALLS.load(std::sync::atomic::Ordering::Relaxed));
+    let code = match args[1].as_str() {
+        "check" => {
+            if args.len() < 4 {
+                usage();
+            }
+            let (p, tier) = (args[2].as_str(), args[3].as_str());
+            if tier != "quick" && tier != "thorough" {
+                usage();
+            }
+            match p {
+                "C05" | "C15" => driver::check_hashsim(p, tier),
+                _ => usage(),
+            }
+        }
+        "worker" => {
+            let input = proc::read_stdin_json();
+            let out = match args.get(2).map(|s| s.as_str()) {
+                Some("hashsim") => hashsim::worker(&input),
+                _ => usage(),
+            };
+            println!("{out}");
+            0
+        }
+        "single" => {
+            let input = proc::read_stdin_json();
+            let out = match args.get(2).map(|s| s.as_str()) {
+                Some("hashsim") => hashsim::single(&input),
+                _ => usage(),
+            };
+            println!("{out}");
+            0
+        }
+        "replay" => driver::replay(args.get(2).map(|s| s.as_str()).unwrap_or_else(|| usage())),
+        _ => usage(),
+    };
+    std::process::exit(code);
 }
